@@ -100,6 +100,9 @@ func init() {
 							// a file that declares a reserve is a layout, also when it names a layout itself
 							files[sub+"mid"+ext] = "@use(\"~ab\")M<@reserve(\"q\")>"
 							layouts[sub+"mid"] = true
+							// ... and when it fills a reserve of that layout with a block that declares the reserve
+							files[sub+"fill"+ext] = "@use(\"~ab\")@insert(\"r\")F<@reserve(\"q\")>@end"
+							layouts[sub+"fill"] = true
 						}
 						// decoys: the extension occurs in the name but not at its end
 						files[sub+"a"+ext+".bak"] = "decoy"
